@@ -81,14 +81,19 @@ fn spawn_local(f: BoxFut) {
 }
 
 fn build(flavor: &str, exec: &str, max_cost: i64, buf: usize, tick: Duration) -> AnyCache {
+    build_bi(flavor, exec, max_cost, buf, tick, 64, 1000)
+}
+
+fn build_bi(flavor: &str, exec: &str, max_cost: i64, buf: usize, tick: Duration, bi: usize, nc: usize) -> AnyCache {
     if flavor == "sync" {
         AnyCache::Sync(
-            CacheBuilder::new_with_key_builder(1000, max_cost, TabKeys)
+            CacheBuilder::new_with_key_builder(nc, max_cost, TabKeys)
                 .set_hasher(S::default())
                 .set_coster(HCoster(CosterKind::Const2))
                 .set_update_validator(HValidator(ValKind::Always))
                 .set_callback(HCallback)
                 .set_buffer_size(buf)
+                .set_buffer_items(bi)
                 .set_metrics(true)
                 .set_ignore_internal_cost(true)
                 .set_cleanup_duration(tick)
@@ -96,12 +101,13 @@ fn build(flavor: &str, exec: &str, max_cost: i64, buf: usize, tick: Duration) ->
                 .expect("finalize") as SCache,
         )
     } else {
-        let b = AsyncCacheBuilder::new_with_key_builder(1000, max_cost, TabKeys)
+        let b = AsyncCacheBuilder::new_with_key_builder(nc, max_cost, TabKeys)
             .set_hasher(S::default())
             .set_coster(HCoster(CosterKind::Const2))
             .set_update_validator(HValidator(ValKind::Always))
             .set_callback(HCallback)
             .set_buffer_size(buf)
+            .set_buffer_items(bi)
             .set_metrics(true)
             .set_ignore_internal_cost(true)
             .set_cleanup_duration(tick);
@@ -276,6 +282,66 @@ fn instance(tx: mpsc::Sender<Value>, seed: u64, flavor: String, exec: String, ti
     let _ = tx.send(json!({"ev":"__done"}));
 }
 
+/// lookups racing writes: with buffer_items = 1 every lookup is its own batch, counted as kept or
+/// dropped; once the policy worker has drained its queue the estimate of every key must reflect its
+/// kept lookups (C15), whatever the cache processor was doing with the policy meanwhile
+fn est_instance(tx: mpsc::Sender<Value>, seed: u64, flavor: String, exec: String) {
+    let mut rng = StdRng::seed_from_u64(seed ^ 0xe57);
+    verif::clock::set_virtual(100_000 * MS);
+    drain_callbacks();
+    let nc = 100_000;
+    let api = Api(build_bi(&flavor, &exec, 1000, 64, Duration::from_secs(3600), 1, nc));
+    let _ = tx.send(json!({"ev":"FInit","flavor":flavor,"exec":exec,"kind":"estimates","nc":nc}));
+    let keys = [2u64, 3, 4, 5, 6, 7, 8];
+    let mut next_val = 1u64;
+    for k in keys {
+        api.insert(k, next_val, 1, 0);
+        next_val += 1;
+    }
+    api.wait();
+    for _round in 0..25 {
+        api.clear();
+        api.wait();
+        for k in keys {
+            api.insert(k, next_val, 1, 0);
+            next_val += 1;
+        }
+        api.wait();
+        let mut kept: std::collections::HashMap<u64, u64> = std::collections::HashMap::new();
+        let mut total = 0u64;
+        let kept_metric = |api: &Api| post(&api.0)["met"]["keepGets"].as_u64().unwrap_or(0);
+        let mut last = kept_metric(&api);
+        for _ in 0..70 {
+            let k = keys[rng.gen_range(0..keys.len())];
+            // a write first: the cache processor takes the policy mutex for it ...
+            api.insert(keys[rng.gen_range(0..keys.len())], next_val, 1, 0);
+            next_val += 1;
+            // ... while this lookup's batch reaches the policy worker
+            api.get(k);
+            let now = kept_metric(&api);
+            if now > last {
+                *kept.entry(crate::cache::KEYTAB[k as usize].0).or_insert(0) += now - last;
+                total += now - last;
+            }
+            last = now;
+        }
+        api.wait();
+        // the policy worker drains its queue
+        let t0 = Instant::now();
+        while post(&api.0)["polq"].as_u64().unwrap_or(0) > 0 && t0.elapsed() < Duration::from_secs(3) {
+            std::thread::sleep(Duration::from_millis(2));
+        }
+        std::thread::sleep(Duration::from_millis(5));
+        let p = post(&api.0);
+        let mut kv: Vec<(u64, u64)> = kept.into_iter().collect();
+        kv.sort();
+        let _ = tx.send(json!({"ev":"Est","kept":kv.iter().map(|(i, n)| json!([i, n])).collect::<Vec<_>>(),"est":p["est"],
+            "total":total,"nc":nc,"polq":p["polq"]}));
+    }
+    api.close();
+    let _ = tx.send(json!({"ev":"__done"}));
+}
+
 pub fn run(o: &Opts) -> i32 {
     let seed = o.u64("seed", 1);
     let out = o.str("out", "/verif/work/free.ndjson");
@@ -302,7 +368,11 @@ pub fn run(o: &Opts) -> i32 {
         let drop_only = j % 4 == 2;
         let (tx, rx) = mpsc::channel();
         let (f, e) = (flavor.clone(), exec.clone());
-        std::thread::spawn(move || instance(tx, seed * 1000 + j, f, e, tick_ms, tiny, drop_only));
+        if j % 4 == 1 && o.flag("est") {
+            std::thread::spawn(move || est_instance(tx, seed * 1000 + j, f, e));
+        } else {
+            std::thread::spawn(move || instance(tx, seed * 1000 + j, f, e, tick_ms, tiny, drop_only));
+        }
         loop {
             match rx.recv_timeout(Duration::from_secs(25)) {
                 Ok(v) => {
